@@ -60,9 +60,10 @@ Example C02_clustal_nonvacuous :
   ClustalParse.parse (Clustal.write 1%Z a) = ClustalParse.ROk a.
 Proof. vm_compute. reflexivity. Qed.
 
-Definition C02_all_formats_statement : Prop :=
-  forall (writef : list row -> list byte) (parsef : list byte -> res) (repr : list row -> bool) a,
-  a <> [] -> repr a = true -> parsef (writef a) = ROk a.
+(* Not proved here: the round trip through the CODE's Phylip, Nexus, Stockholm and PaML parsers (they are not
+   modelled: the Phylip and Nexus theorems above use reference readers, tied to the code's parsers on every written
+   file by Corr/C02.v), compressed files, streams and format detection.  Those are judged on every generated
+   alignment by the spec oracle of Corr/C02.v (bounded validation, not a theorem). *)
 
 Example C02_nonvacuous :
   let a := [([x73; x31], [x41; x43; x2d; x67; x3f; x2a]); ([x78], [x54; x54; x54; x54; x54; x54])] in
